@@ -84,7 +84,7 @@ class Probe(urwid.Widget):
             text.append(bytes(65 + x % 58 for x in range(c)))
             attr.append([((self.name, y), c)] if c else [])
         cur = None
-        if focus and self.cursor is not None:
+        if focus and self._sel and self.cursor is not None:  # an unselectable widget never shows a cursor
             cx, cy = self.cursor
             if 0 <= cx < c and 0 <= cy < r:
                 cur = (cx, cy)
@@ -103,7 +103,7 @@ class Probe(urwid.Widget):
         return True
 
     def get_cursor_coords(self, size):
-        if self.cursor is None:
+        if self.cursor is None or not self._sel:
             return None
         c, r = self.dims(size)
         cx, cy = self.cursor
@@ -134,12 +134,20 @@ class Probe(urwid.Widget):
 
 
 def cell_map(canv):
-    """rows of cells: each cell is (char, attr) using one cell per screen column (ASCII probes only)."""
+    """rows of cells, one cell per screen column: (code point of the character shown, attr); the second column of a
+    double-width character repeats it.  Text is UTF-8 (the probes' checks run in utf-8 mode); bytes of the DEC special
+    charset are one column each."""
+    from .refs.widths import cwidth
+
     out = []
     for row in canv.content():
         cells = []
         for a, cs, seg in row:
-            for b in seg:
-                cells.append((b, a))
+            if cs is not None:
+                cells.extend((b, a) for b in seg)
+                continue
+            for c in bytes(seg).decode("utf-8", "replace"):
+                w = cwidth(c)
+                cells.extend([(ord(c), a)] * w)
         out.append(cells)
     return out
